@@ -15,8 +15,8 @@ func GetDefaultInterface() (iface *net.Interface, ifaceIP net.IP, err error) {
 	}
 	priority := math.MaxInt32
 	for _, route := range routes {
-		// found default gateway
-		if route.Dst == nil && route.Src == nil && route.Priority < priority {
+		// found default gateway (a preferred source address on the route does not make it less of one)
+		if route.Dst == nil && route.Priority < priority {
 			priority = route.Priority
 			if iface, err = net.InterfaceByIndex(route.LinkIndex); err != nil {
 				return
@@ -37,7 +37,7 @@ func GetDefaultGatewayIP(iface *net.Interface) (gatewayIP net.IP, err error) {
 	priority := math.MaxInt32
 	for _, route := range routes {
 		// found default gateway
-		if route.Dst == nil && route.Src == nil && route.LinkIndex == iface.Index && route.Priority < priority {
+		if route.Dst == nil && route.LinkIndex == iface.Index && route.Priority < priority {
 			priority = route.Priority
 			gatewayIP = route.Gw
 		}
